@@ -2,6 +2,7 @@
 From Coq Require Import List String NArith Bool Arith Lia.
 From Coq Require Import Strings.Byte.
 From YV Require Import Utf8 Scanner Parser ParseRun Lines ScannerLineExact.
+From YV Require ParserInv.
 Import ListNotations.
 Local Open Scope N_scope.
 
@@ -40,7 +41,35 @@ Theorem C17_compile_error_line_exact : forall src l a m,
               (no_swallow_tokens src = true -> l = line_of_offset src e).
 Proof. exact compile_error_line_exact. Qed.
 
-(* OPEN defect class newline_after_backslash_or_dollar: later tokens one line short *)
+(* the synthetic Eof token ends at the end of the source: it carries the last line (minus the deficit) *)
+Theorem C17_eof_line_exact : forall src, nl_cleanb src = true ->
+  forall t e, In (t, e) (scan_ends src) -> tk t = TEof ->
+    e = List.length src /\
+    tline t + swallowed src (scan_ends src) = 1 + N.of_nat (count_nl src).
+Proof. exact eof_line_exact. Qed.
+
+(* a swallowing Error token (the first Error token of the scan) carries the line on which the swallowed break stands *)
+Theorem C17_swallowing_error_line : forall src, nl_cleanb src = true ->
+  forall l1 t e l2, scan_ends src = l1 ++ (t, e) :: l2 ->
+    Forall (fun te => tk (fst te) <> TError) l1 -> swallowb src (t, e) = true ->
+    tline t = line_of_offset src (e - 1).
+Proof. exact swallowing_error_line. Qed.
+
+(* the FIRST compile error of every source: exact, no side condition beyond UTF-8 *)
+Theorem C17_compile_error_line_exact_first : forall src l a m,
+  valid_utf8 src = true ->
+  parse_source src = PErr l a m ->
+  exists t e, In (t, e) (scan_ends src) /\ l = tline t /\
+    (if swallowb src (t, e) then l = line_of_offset src (e - 1) else l = line_of_offset src e).
+Proof. exact compile_error_line_exact_first_utf8. Qed.
+
+(* the parser half: the reported line is the line of a token with no Error token before it *)
+Theorem C17_parse_error_before_scan_error : forall src l a m,
+  parse_source src = PErr l a m ->
+  exists t, (exists pre post, scan_all src = pre ++ t :: post /\ Forall (fun x => tk x <> TError) pre) /\ tline t = l.
+Proof. exact ParserInv.parse_error_before_scan_error. Qed.
+
+(* OPEN defect class literal_error_swallows_newline (notes/C17-findings.json): later tokens one line short *)
 Theorem C17_line_exact_refuted_escape :
   exists src l1 t e l2, valid_utf8 src = true /\ scan_ends src = l1 ++ (t, e) :: l2 /\
     tk t = TEqual /\ tline t = 2 /\ line_of_offset src e = 3.
@@ -59,3 +88,7 @@ Print Assumptions C17_token_line_exact_all.
 Print Assumptions C17_compile_error_line_exact.
 Print Assumptions C17_line_exact_refuted_escape.
 Print Assumptions C17_line_exact_refuted_dollar.
+Print Assumptions C17_eof_line_exact.
+Print Assumptions C17_swallowing_error_line.
+Print Assumptions C17_compile_error_line_exact_first.
+Print Assumptions C17_parse_error_before_scan_error.
